@@ -31,6 +31,7 @@ import (
 	"github.com/vulcand/oxy/v2/memmetrics"
 	"github.com/vulcand/oxy/v2/ratelimit"
 	"github.com/vulcand/oxy/v2/roundrobin"
+	"github.com/vulcand/oxy/v2/roundrobin/stickycookie"
 	"github.com/vulcand/oxy/v2/stream"
 	"github.com/vulcand/oxy/v2/trace"
 	"github.com/vulcand/oxy/v2/utils"
@@ -185,6 +186,8 @@ func (m *ratioMeter) Record(code int, _ time.Duration) {
 }
 func (m *ratioMeter) IsReady() bool { return true }
 
+var balancerSeq atomic.Int64
+
 func newBalancer(rebalance bool) *instance {
 	var served atomic.Int64
 	h := statusHandler(&served)
@@ -193,7 +196,17 @@ func newBalancer(rebalance bool) *instance {
 		h = digitHandler(&served)
 		foreignRecords.Store(0)
 	}
-	rr, _ := roundrobin.New(h, roundrobin.EnableStickySession(roundrobin.NewStickySession("sid")))
+	// every other balancer seals its affinity cookies (AES) instead of writing the URL in clear
+	stickyOf := func() *roundrobin.StickySession {
+		ss := roundrobin.NewStickySession("sid")
+		if balancerSeq.Add(1)%2 == 0 {
+			if v, err := stickycookie.NewAESValue([]byte("0123456789abcdef"), 0); err == nil {
+				ss.SetCookieValue(v)
+			}
+		}
+		return ss
+	}
+	rr, _ := roundrobin.New(h, roundrobin.EnableStickySession(stickyOf()))
 	_ = rr.UpsertServer(mustURL("http://stable"), roundrobin.Weight(2))
 	var front http.Handler = rr
 	pool := interface {
@@ -204,7 +217,7 @@ func newBalancer(rebalance bool) *instance {
 	if rebalance {
 		// an always-ready error-ratio meter, so that weights really get adjusted while
 		// requests and administration overlap (the default meter needs 10 s of history)
-		rb, _ := roundrobin.NewRebalancer(rr, roundrobin.RebalancerStickySession(roundrobin.NewStickySession("sid")),
+		rb, _ := roundrobin.NewRebalancer(rr, roundrobin.RebalancerStickySession(stickyOf()),
 			roundrobin.RebalancerBackoff(50*time.Microsecond), roundrobin.RebalancerMeter(func() (roundrobin.Meter, error) {
 				for i := 0; i < 3; i++ { // building a meter takes a moment: whoever calls it outside a lock overlaps with others
 					runtime.Gosched()
@@ -254,7 +267,13 @@ func newBreaker() *instance {
 	var served atomic.Int64
 	h := statusHandler(&served)
 	var fallbacks atomic.Int64
-	fb := http.HandlerFunc(func(w http.ResponseWriter, r *http.Request) { fallbacks.Add(1); w.WriteHeader(503) })
+	// the stock redirect fallback, keeping the path of each request
+	redirect, err := cbreaker.NewRedirectFallback(cbreaker.Redirect{URL: "http://sorry.example/base", PreservePath: true})
+	if err != nil {
+		panic(err)
+	}
+	var wrongRedirects atomic.Int64
+	fb := http.HandlerFunc(func(w http.ResponseWriter, r *http.Request) { fallbacks.Add(1); redirect.ServeHTTP(w, r) })
 	lg := &stateLog{}
 	var tripEffects atomic.Int64
 	cb, err := cbreaker.New(h, "LatencyAtQuantileMS(50.0) > 10000 || LatencyAtQuantileMS(99.0) > 10000 || NetworkErrorRatio() > 0.5 || ResponseCodeRatio(500, 600, 0, 600) > 0.9",
@@ -266,10 +285,19 @@ func newBreaker() *instance {
 	var requests atomic.Int64
 	return &instance{
 		exec: func(g int, op string) {
-			requests.Add(1)
-			cb.ServeHTTP(httptest.NewRecorder(), request(op))
+			n := requests.Add(1)
+			req := request(op)
+			req.URL.Path = fmt.Sprintf("/g%d/r%d", g, n)
+			rec := httptest.NewRecorder()
+			cb.ServeHTTP(rec, req)
+			if rec.Code == http.StatusFound && rec.Header().Get("Location") != "http://sorry.example/base"+req.URL.Path {
+				wrongRedirects.Add(1)
+			}
 		},
 		after: func() string {
+			if n := wrongRedirects.Load(); n > 0 {
+				return fmt.Sprintf("%d requests answered by the redirect fallback were sent to another request's path", n)
+			}
 			if served.Load()+fallbacks.Load() != requests.Load() {
 				return fmt.Sprintf("%d requests: %d reached the handler + %d the fallback", requests.Load(), served.Load(), fallbacks.Load())
 			}
